@@ -493,6 +493,46 @@ func (h *H) Step(line string) {
 			}
 		}
 		h.result(class, "")
+	case "codec":
+		// codec <id> <gen>: binary and JSON round trip of a handle
+		if len(toks) != 3 {
+			h.emit("bad-op")
+			return
+		}
+		id, err1 := strconv.ParseUint(toks[1], 10, 32)
+		gen, err2 := strconv.ParseUint(toks[2], 10, 32)
+		if err1 != nil || err2 != nil {
+			h.emit("skip")
+			return
+		}
+		var res string
+		class := try(func() {
+			var e ecs.Entity
+			if err := e.UnmarshalJSON([]byte(fmt.Sprintf("[%d,%d]", id, gen))); err != nil {
+				panic("harness: json " + err.Error())
+			}
+			bin, _ := e.MarshalBinary()
+			app, _ := e.AppendBinary([]byte{0xAA})
+			var back, back2 ecs.Entity
+			errb := back.UnmarshalBinary(bin)
+			errb2 := back2.UnmarshalBinary(app[1:])
+			js, _ := e.MarshalJSON()
+			var back3 ecs.Entity
+			errj := back3.UnmarshalJSON(js)
+			res = fmt.Sprintf("bin=%x rt=%s app=%s json=%s jrt=%s err=%d", bin, handle(back), handle(back2), string(js), handle(back3),
+				b2i(errb != nil || errb2 != nil || errj != nil))
+		})
+		h.result(class, res)
+	case "codecbad":
+		// codecbad <len>: UnmarshalBinary of a byte string of that length
+		n, err := strconv.Atoi(toks[1])
+		if err != nil || n < 0 || n > 64 {
+			h.emit("skip")
+			return
+		}
+		var e ecs.Entity
+		errb := e.UnmarshalBinary(make([]byte, n))
+		h.emit(fmt.Sprintf("ok err=%d", b2i(errb != nil)))
 	case "res":
 		h.doRes(toks)
 	default:
